@@ -111,6 +111,9 @@ def install(E):
             out.append(Obl('struct', 'CAST: integer conversion %s -> %s on the path from the parsed constant to the bound is not value-preserving' % (ev[1], ev[2]),
                            False, {'from': ev[1], 'to': ev[2]}, world='%s is %s' % (show_key(root), var), loc=ev[4]))
         I.E.stats['obligations'] += len(lossy)
+        for ev in [x for x in I.events if x[0] == 'clamp_bad']:
+            out.append(Obl('struct', 'CLAMP: a constant that does not fit the bound type is replaced by %s, a value a count can reach; only a replacement >= 2^63-1 preserves every comparison' % ev[1],
+                           False, {'replacement': ev[1]}, world='%s is %s' % (show_key(root), var), loc=ev[2]))
         out += post_size_change_syn(I, params)
         return out
 
